@@ -22,11 +22,11 @@ def _leaf_len(cat, c):
     return 0
 
 
-def build_scenarios(wd, proto, n, t, kinds, seed, limit=None, scheds=1, cross=False, alts=None, start_id=0, pool=False, fieldwise=False, minlen=0):
+def build_scenarios(wd, proto, n, t, kinds, seed, limit=None, scheds=1, cross=False, alts=None, start_id=0, pool=False, fieldwise=False, minlen=0, only_byz=None):
     cat = hc.fault_catalogue(wd, proto, n, t, seed)
     cases = []
     if "equiv" in kinds:
-        cases += cat["equiv"]
+        cases += [c for c in cat["equiv"] if only_byz is None or c["byz"] == only_byz]
     if "fault" in kinds:
         # the count-overflow family (lenwrap<k>, lenmax, lenhalf) only on request (alts contains "len*")
         lenfam = alts is not None and "len*" in alts
@@ -93,7 +93,7 @@ def run_family(rep, wd, plan, prop, seed, count_props, shards=8, extra_scen=()):
     for p in plan:
         sc, total, cat = build_scenarios(wd, p["proto"], p["n"], p["t"], p["kinds"], seed, p.get("limit"), p.get("scheds", 1),
                                          p.get("cross", False), p.get("alts"), start_id=len(scen), pool=p.get("pool", False),
-                                         fieldwise=p.get("fieldwise", False), minlen=p.get("minlen", 0))
+                                         fieldwise=p.get("fieldwise", False), minlen=p.get("minlen", 0), only_byz=p.get("only_byz"))
         scen += sc
         cat_total += total
         states += cat["tlc"]["distinct"]; trans += cat["tlc"]["generated"]
